@@ -74,7 +74,13 @@ def build(scen, pad):
             acts += [SetSwitchAction(_switch=s, _switch_action=SwitchAction.SET) for s in sws]
             # existing switches by number, switch 0 included (numbers are 0-based)
             acts += [SetSwitchAction(_switch=RichSwitch(_index=k), _switch_action=SwitchAction.CLEAR) for k in CARRIED_SWITCHES]
-            if scen >= 100:
+            if scen == 101:
+                # contradictory content of another kind: two different locations pinned to one free slot number
+                # (a copy-paste slip); raise or not, the outcome is the same under every hash seed
+                AUTHORED_RECTS[:0] = [[3000, 3000, 3100, 3100], [3200, 3000, 3300, 3100]]
+                acts += [MinimapPingAction(_location=RichLocation(3000, 3000, 3100, 3100, RichString("c14 pin A"), 200)),
+                         MinimapPingAction(_location=RichLocation(3200, 3000, 3300, 3100, RichString("c14 pin B"), 200))]
+            if scen == 100:
                 # contradictory content: two different names for one switch number (a stale copy after a rename);
                 # whatever the library does with it, it must do the same under every hash seed
                 acts += [SetSwitchAction(_switch=RichSwitch(RichString("c14 door"), 9), _switch_action=SwitchAction.SET),
@@ -91,19 +97,12 @@ def build(scen, pad):
 def canonical(base, out):
     spec = load_spec()
     layouts = refchk.layouts_of(spec)
-    rows = json.load(open(os.path.join(BUILD_DIR, "trigtable.json")))["rows"]
+    # which fields of which entry types are references: the specification's argument tables
+    rf = refchk.ref_fields_of(spec)
     ref_fields = {"action": {}, "condition": {}}  # id -> {field: kind}
-    for r in rows:
-        m = {}
-        for d in r["decode"]:
-            c = d["codec"]
-            if c in ("loc", "loc!"):
-                m[d["field"]] = "loc"
-            elif c == "switch":
-                m[d["field"]] = "switch"
-            elif c == "cuwp":
-                m[d["field"]] = "cuwp"
-        ref_fields[r["kind"]][r["id"]] = m
+    for kind, key in (("action", "a"), ("condition", "c")):
+        for tid, fmap in rf[key].items():
+            ref_fields[kind][tid] = {f: refchk.REF_KIND[a] for f, a in fmap.items() if refchk.REF_KIND.get(a) in ("loc", "switch", "cuwp")}
 
     def tables(data):
         t = {}
